@@ -147,11 +147,11 @@ def run(ck, tier):
         ck.saw('functions', f.qn)
         ck.saw('framers', kind)
         npaths += len(fps)
-        r1_loop(ck, cx, kind, cls, f, fps)
-        nabs += r2_incomplete(ck, cx, kind, cls, f, fps)
-        r3_header(ck, cx, kind, cls)
-        r4_escape(ck, cx, kind, cls, f, fps)
-        r5_chunk_independent_control(ck, cx, kind, cls, f, fps)
+        ck.guard(r1_loop, ck, cx, kind, cls, f, fps)
+        nabs += ck.guard(r2_incomplete, ck, cx, kind, cls, f, fps) or 0
+        ck.guard(r3_header, ck, cx, kind, cls)
+        ck.guard(r4_escape, ck, cx, kind, cls, f, fps)
+        ck.guard(r5_chunk_independent_control, ck, cx, kind, cls, f, fps)
         ck.sample({'framer': kind, 'paths': len(fps), 'absence-paths': sum(1 for fp in fps if fp.absences),
                    'delivery-paths': sum(1 for fp in fps if fp.deliveries)})
     ck.floor('R2', nabs, 8, 'data-absence paths over four framers')
